@@ -358,7 +358,8 @@ def rule_B2(ctx):
     s2 = ctx.fn(MIDI, "ScaleDegree.from_string", "B2")
     from .util import return_keys as _rk2
     ip2 = s2.args.args[1].arg
-    ok = _rk2(ctx, s1, "B2") == {"chr(65 + self.value)"} and _rk2(ctx, s2, "B2") <= {f"cls(-65 + ord(({ip2}.upper()).strip()))", f"cls(-65 + ord(({ip2}.strip()).upper()))", f"cls(-65 + ord({ip2}))"} \
+    # (an enum member's .name is its letter: the member names A..G are what the ScaleDegree obligation above pins to 0..6)
+    ok = _rk2(ctx, s1, "B2") in ({"chr(65 + self.value)"}, {"self.name"}) and _rk2(ctx, s2, "B2") <= {f"cls(-65 + ord(({ip2}.upper()).strip()))", f"cls(-65 + ord(({ip2}.strip()).upper()))", f"cls(-65 + ord({ip2}))"} \
         and bool(_rk2(ctx, s2, "B2"))
     ctx.ob("B2", s1, "degree <-> letter are inverse shifts by ord('A')", ok, "", inst="degree-letter")
 
